@@ -71,13 +71,19 @@ def quadfam_mesh(inp):
                 cons=[(0, 1)], ztop=o[2], dz=list(inp['dz']))
 
 
-def build(M, family, inp, conv, atm, order):
+def oracle_mesh(family, inp):
+    if family == 'rect': return GO.rect_mesh(inp['dx'], inp['dy'], inp['dz'], inp['origin'])
+    if family == 'quadfam': return quadfam_mesh(inp)
+    return mix_mesh(inp, family)
+
+
+def build(M, family, inp, conv, atm, order, mesh=None):
     """-> (geometry built by the real code, oracle mesh)."""
+    if mesh is None: mesh = oracle_mesh(family, inp)
     if family == 'rect':
         geo = M.mulgrid().rectangular(inp['dx'], inp['dy'], inp['dz'], convention=conv,
                                       atmos_type=atm, origin=inp['origin'], block_order=order)
-        return geo, GO.rect_mesh(inp['dx'], inp['dy'], inp['dz'], inp['origin'])
-    mesh = quadfam_mesh(inp) if family == 'quadfam' else mix_mesh(inp, family)
+        return geo, mesh
     # irregular: the way mulgrid.from_gmsh() assembles a geometry
     geo = M.mulgrid(type='GENER', convention=conv, atmos_type=atm, block_order=order)
     geo.empty()
@@ -146,6 +152,14 @@ def compare(ex, geo, grid, blockmap, S, P):
     string, or None if the structure differs (numeric part skipped)."""
     mesh = ex.mesh
     ncol = ex.nc
+    # the geometry's own connection order is an input of the conversion; the
+    # oracle only requires it to join exactly the pairs of columns that share an edge
+    cidx = dict((col.name, i) for i, col in enumerate(geo.columnlist))
+    geo_cons = [(cidx[con.column[0].name], cidx[con.column[1].name]) for con in geo.connectionlist]
+    S(sorted(tuple(sorted(x)) for x in geo_cons) == sorted(tuple(sorted(x)) for x in mesh['cons']),
+      'geometry connections join exactly the columns sharing an edge',
+      'geometry connections %r, adjacent pairs %r' % (geo_cons, mesh['cons']))
+    ex.mesh = dict(mesh, cons=geo_cons)
     cells = ex.block_cells()
     concells = ex.connection_cells()
     laynames = [lay.name for lay in geo.layerlist]
